@@ -8,6 +8,8 @@ CONSTANTS
  SubjSel = {"all"}
  Spells = {"dig", "tag", "both", "plat"}
  Dopts = {"check", "man"}
+ Inits <- InitsRev
+ NAs <- NAsSome
  Script <- NoScript
  SerialPrefix = 0
  ObsPolicy = "any"
